@@ -17,6 +17,7 @@ before wrapping.  `escapingEngine` below satisfies the law AND has that escaping
 The formal semantics is validated against Go's `regexp` by the `rx` differential of the harness.
 -/
 import SerfProofs.Lemmas.Regex
+import SerfProofs.Lemmas.RegexSem
 import SerfModel.Gen.AnchorTemplate
 namespace SerfProofs.C26
 open SerfModel SerfModel.Regex SerfProofs.Regex
@@ -36,17 +37,98 @@ theorem search_wrap (r : Regex) (w : List Char) : search (wrap r) w = fullMatch 
   unfold wrap
   cases h1 : search (.cat .bot (.cat (.group r) .eot)) w <;> cases h2 : fullMatch r w <;> simp_all
 
-/-- every filter expression (tag values, status, name) is compiled by `compileAnchored`; that
-helper validates the pattern on its own FIRST and only then compiles it inside `^(?:%s)$`; the
-member loop has exactly the three documented skip conditions, and a member that passes them is
-appended -/
-theorem C26_template_is_grouped :
-    Gen.AnchorTemplate.sites = [("expr", "compileAnchored"), ("status", "compileAnchored"), ("name", "compileAnchored")] ∧
-    Gen.AnchorTemplate.helperSteps = ["validate:expr", "wrap:^(?:%s)$:expr"] ∧
-    Gen.AnchorTemplate.guards = ["!tagsRe[tag].MatchString(m.Tags[tag])",
-      "status != \"\" && !statusRe.MatchString(m.Status.String())",
-      "name != \"\" && !nameRe.MatchString(m.Name)"] ∧
-    Gen.AnchorTemplate.appends = ["append(result, m)"] := by decide
+/-! ## The formal matcher is the standard semantics
+
+`Matches r w i j` (SerfProofs/Lemmas/RegexSem.lean) is the textbook inductive definition of
+"`r` matches `w[i..j)`" with anchors; the executable `ends` — including the star's bounded
+closure — computes exactly that relation.  So the anchoring theorem is a statement about the
+standard semantics, not about an ad-hoc matcher. -/
+
+theorem C26_matcher_correct (r : Regex) (w : List Char) (i j : Nat) (hi : i ≤ w.length) :
+    j ∈ ends r w i ↔ Matches r w i j := mem_ends_iff r w i j hi
+
+theorem C26_fullMatch_iff (r : Regex) (w : List Char) : fullMatch r w = true ↔ Matches r w 0 w.length := by
+  unfold fullMatch
+  rw [List.contains_iff_mem]
+  exact mem_ends_iff r w 0 w.length (Nat.zero_le _)
+
+theorem C26_search_iff (r : Regex) (w : List Char) :
+    search r w = true ↔ ∃ i j, i ≤ w.length ∧ Matches r w i j := by
+  unfold search
+  rw [List.any_eq_true]
+  constructor
+  · rintro ⟨i, hi, hne⟩
+    have hi' : i ≤ w.length := by have := List.mem_range.1 hi; omega
+    cases he : ends r w i with
+    | nil => simp [he] at hne
+    | cons j js =>
+      exact ⟨i, j, hi', (mem_ends_iff r w i j hi').1 (by rw [he]; simp)⟩
+  · rintro ⟨i, j, hi, hm⟩
+    refine ⟨i, List.mem_range.2 (by omega), ?_⟩
+    have := (mem_ends_iff r w i j hi).2 hm
+    cases he : ends r w i with
+    | nil => rw [he] at this; simp at this
+    | cons _ _ => simp
+
+/-- **Anchoring, in the declarative semantics alone**: `^(?:r)$` matches somewhere in `w` iff
+`r` matches all of `w`. -/
+theorem C26_anchor_declarative (r : Regex) (w : List Char) :
+    (∃ i j, i ≤ w.length ∧ Matches (.cat .bot (.cat (.group r) .eot)) w i j) ↔ Matches r w 0 w.length := by
+  rw [← C26_search_iff, ← C26_fullMatch_iff]
+  exact C26_anchor_sound r w
+
+example : Matches (.alt (.char 'a') (.star (.char 'b'))) "bb".toList 0 2 ∧
+    ¬ Matches (.alt (.char 'a') (.star (.char 'b'))) "ab".toList 0 2 := by
+  constructor
+  · exact (C26_fullMatch_iff _ _).1 (by decide)
+  · intro h; have := (C26_fullMatch_iff _ _).2 h; revert this; decide
+
+/-! ## The code's shape (regenerated) is the shape the theorems are about -/
+
+/-- `compileAnchored` is: validate the pattern on its own, THEN compile it inside `^(?:%s)$`;
+the member loop is: every requested tag read as `m.Tags[tag]` (missing = ""), the status filter
+and the name filter each skipped when empty and matched against `m.Status.String()` / `m.Name`;
+the three filters are compiled by that helper from `tags[tag]`, `status`, `name`; every error
+return carries no list; `handleMembers` returns the error right after the call. -/
+theorem C26_shape :
+    Gen.AnchorTemplate.shape = canonicalShape ∧
+    Gen.AnchorTemplate.sites = [("tagsRe[tag]", "tags[tag]", "compileAnchored"), ("statusRe", "status", "compileAnchored"),
+      ("nameRe", "name", "compileAnchored")] ∧
+    Gen.AnchorTemplate.errorReturns = ["nil", "nil", "nil"] ∧
+    Gen.AnchorTemplate.handler =
+      "call:raw, err = i.filterMembers(raw, req.Tags, req.Status, req.Name) | next:if err != nil { return err }" := by
+  decide
+
+/-- What the members command documents (docs/commands/members.html.markdown, regenerated): the
+`-status`, `-tag` (and deprecated `-role`) filters are "anchored at the start and end, and must be a
+full match"; the `-name` paragraph only says "matching this regular expression" — the code (and the
+property) anchor it like the others. -/
+theorem C26_documented :
+    Gen.AnchorTemplate.documentedFilters = [("-name", false), ("-role", true), ("-status", true), ("-tag", true)] := by
+  decide
+
+/-- the interpreter of shapes, at the canonical shape, is the hand-written translation -/
+theorem filterMembersS_canonical (e : Engine) (ms : List Member) (tags : List (String × String)) (status name : String) :
+    filterMembersS canonicalShape e ms tags status name = filterMembers e ms tags status name := by
+  have hc : ∀ p, compileWith canonicalShape.compile e p = compileAnchored e p := by
+    intro p
+    simp only [compileWith, canonicalShape, compileAnchored, List.all_cons, List.all_nil, Bool.and_true]
+    cases e.validAlone p <;> simp
+  unfold filterMembersS filterMembers
+  simp only [hc]
+  have hp : ∀ m, (canonicalShape.guards.all (passes e tags status name m)) =
+      ((tags.all fun tp => e.matchStr tp.2 (tagValue m tp.1)) &&
+        (status == "" || e.matchStr status m.status) && (name == "" || e.matchStr name m.name)) := by
+    intro m
+    simp [canonicalShape, passes, Bool.and_assoc]
+  simp only [hp]
+
+/-- **the translated code is the model**: what `filterMembers` of ipc.go does, read through the
+regenerated shape, is `filterMembers` of `SerfModel.Regex` — so every theorem below is about the
+code as extracted -/
+theorem C26_code_is_model (e : Engine) (ms : List Member) (tags : List (String × String)) (status name : String) :
+    filterMembersS Gen.AnchorTemplate.shape e ms tags status name = filterMembers e ms tags status name := by
+  rw [C26_shape.1]; exact filterMembersS_canonical e ms tags status name
 
 /-- what a pattern means on its own -/
 def fullMatchP (parse : String → Option Regex) (p v : String) : Bool :=
@@ -79,15 +161,17 @@ theorem formalEngine_law (parse : String → Option Regex) (pats : List String) 
 wrapped form compiles (to `(^(?:a))|((?:b)$)`) and matches inside `ax`.  It satisfies the law
 too: the law does not speak about wrapped forms of patterns that are invalid alone. -/
 def escapingEngine : Engine where
-  validAlone p := p == "a|b"
-  compilesWrapped p := p == "a|b" || p == "a)|(?:b"
+  validAlone p := p == "a|b" || p == ""
+  compilesWrapped p := p == "a|b" || p == "" || p == "a)|(?:b"
   matchStr p v :=
     if p == "a|b" then search (wrap (.alt (.char 'a') (.char 'b'))) v.toList
+    else if p == "" then search (wrap .empty) v.toList
     else if p == "a)|(?:b" then
       search (.alt (.cat .bot (.group (.char 'a'))) (.cat (.group (.char 'b')) .eot)) v.toList
     else false
 
-def tinyParse (p : String) : Option Regex := if p = "a|b" then some (.alt (.char 'a') (.char 'b')) else none
+def tinyParse (p : String) : Option Regex :=
+  if p = "a|b" then some (.alt (.char 'a') (.char 'b')) else if p = "" then some .empty else none
 
 theorem escapingEngine_law (pats : List String) : EngineLaw escapingEngine tinyParse pats := by
   intro p _
@@ -99,8 +183,16 @@ theorem escapingEngine_law (pats : List String) : EngineLaw escapingEngine tinyP
       rw [h2] at hr; injection hr with hr; exact hr.symm
     subst this
     exact ⟨by decide, fun v => by simp [escapingEngine]⟩
-  · refine ⟨by simp [escapingEngine, tinyParse, h], fun r hr => ?_⟩
-    simp [tinyParse, h] at hr
+  · by_cases h0 : p = ""
+    · subst h0
+      refine ⟨by decide, fun r hr => ?_⟩
+      have : r = .empty := by
+        have h2 : tinyParse "" = some .empty := by decide
+        rw [h2] at hr; injection hr with hr; exact hr.symm
+      subst this
+      exact ⟨by decide, fun v => by simp [escapingEngine]⟩
+    · refine ⟨by simp [escapingEngine, tinyParse, h, h0], fun r hr => ?_⟩
+      simp [tinyParse, h, h0] at hr
 
 /-- with that engine the repaired filter rejects the escaping pattern (and the wrapped form,
 had it been used unvalidated, would have listed `ax`) -/
@@ -185,6 +277,77 @@ example : EngineLaw escapingEngine tinyParse (requested [] "a|b" "a)|(?:b") ∧
 example : filterMembers (formalEngine fun p => if p = "a|b" then some (.alt (.char 'a') (.char 'b')) else if p = "" then some .empty else none)
     [⟨"a", "alive", []⟩, ⟨"ax", "alive", []⟩, ⟨"b", "alive", []⟩] [] "" "a|b"
     = some [⟨"a", "alive", []⟩, ⟨"b", "alive", []⟩] := by decide
+
+/-- **Complete specification** (exactness and the error case in one statement, for every member
+list and every filter set): under the engine law, the filter returns an error iff some requested
+pattern (status and name count even when empty: `""` is a valid pattern) is invalid, and otherwise
+exactly the members fully matched by every requested filter. -/
+theorem C26_filter_spec (e : Engine) (parse : String → Option Regex) (ms : List Member)
+    (tags : List (String × String)) (status name : String)
+    (hw : EngineLaw e parse (requested tags status name)) :
+    filterMembersS Gen.AnchorTemplate.shape e ms tags status name =
+      if (requested tags status name).all (fun p => (parse p).isSome) then
+        some (ms.filter fun m =>
+          (tags.all fun tp => fullMatchP parse tp.2 (tagValue m tp.1)) &&
+          (status == "" || fullMatchP parse status m.status) &&
+          (name == "" || fullMatchP parse name m.name))
+      else none := by
+  rw [C26_code_is_model]
+  by_cases hall : (requested tags status name).all (fun p => (parse p).isSome) = true
+  · rw [if_pos hall]
+    exact C26_filter_exact e parse ms tags status name hw (fun p hp => List.all_eq_true.mp hall p hp)
+  · rw [if_neg hall]
+    apply C26_invalid_pattern e parse ms tags status name hw
+    have : ∃ p ∈ requested tags status name, ¬ (parse p).isSome = true := by
+      simpa [List.all_eq_true] using hall
+    obtain ⟨p, hp, hn⟩ := this
+    exact ⟨p, hp, by cases h : parse p <;> simp_all⟩
+
+example : filterMembersS Gen.AnchorTemplate.shape escapingEngine [⟨"a", "alive", []⟩, ⟨"ax", "alive", []⟩] [] "" "a|b"
+    = some [⟨"a", "alive", []⟩] := by decide
+
+/-- whatever the engine does, the reply is a sub-list of the members in their original order
+(no member is invented, duplicated or reordered) -/
+theorem C26_result_sublist (e : Engine) (ms : List Member) (tags : List (String × String)) (status name : String)
+    (l : List Member) (h : filterMembersS Gen.AnchorTemplate.shape e ms tags status name = some l) :
+    l.Sublist ms := by
+  rw [C26_code_is_model] at h
+  unfold filterMembers at h
+  split at h
+  · cases h
+  · split at h
+    · cases h
+    · split at h
+      · cases h
+      · injection h with h; rw [← h]; exact List.filter_sublist
+
+/-- Regression witness (seeded mutation C26-b): with the two-value map read
+(`val, ok := m.Tags[tag]; !ok ⇒ skip`) a member that lacks a requested tag is dropped even when
+the pattern matches the empty string; the canonical shape keeps it. -/
+theorem C26_missing_tag_counterexample :
+    let e := formalEngine fun p => if p = "" then some .empty else none
+    let ms : List Member := [⟨"n1", "alive", [("role", "")]⟩, ⟨"n2", "alive", []⟩]
+    filterMembersS { canonicalShape with guards := [.tags .presentOnly, .field .status true, .field .name true] }
+        e ms [("role", "")] "" "" = some [⟨"n1", "alive", [("role", "")]⟩] ∧
+    filterMembersS canonicalShape e ms [("role", "")] "" "" = some ms := by decide
+
+/-- Regression witness (repaired in 990828f) at the level of the filter: without the
+validate-alone step, an engine with Go's behaviour on `a)|(?:b` makes the filter return a list
+(containing `ax`) where the canonical shape returns the error. -/
+theorem C26_no_validation_counterexample :
+    filterMembersS { canonicalShape with compile := [.wrap "^(?:%s)$"] } escapingEngine
+        [⟨"a", "alive", []⟩, ⟨"ax", "alive", []⟩] [] "" "a)|(?:b" = some [⟨"a", "alive", []⟩, ⟨"ax", "alive", []⟩] ∧
+    filterMembersS canonicalShape escapingEngine [⟨"a", "alive", []⟩, ⟨"ax", "alive", []⟩] [] "" "a)|(?:b" = none := by
+  decide
+
+/-- The engine law is needed: with an engine whose wrapped expression is NOT anchored (it
+searches for `r` anywhere — what the pre-29833e4 template did for alternations) the same filter
+lists `ax` for the name filter `a|b`. -/
+theorem C26_engine_law_needed :
+    let e : Engine := { validAlone := fun _ => true, compilesWrapped := fun _ => true,
+                        matchStr := fun p v => if p == "a|b" then search (.alt (.char 'a') (.char 'b')) v.toList else true }
+    filterMembersS Gen.AnchorTemplate.shape e [⟨"a", "alive", []⟩, ⟨"ax", "alive", []⟩] [] "" "a|b"
+      = some [⟨"a", "alive", []⟩, ⟨"ax", "alive", []⟩] := by decide
 
 /-- Regression witness (repaired in 29833e4): the old template `^%s$` applied to `a|b` is, by
 precedence, `(^a)|(b$)`; it finds a match in `ax`, which `a|b` does not match as a whole. -/
